@@ -928,7 +928,7 @@ func (p *proxyObject) __isCompatibleDescriptor(extensible bool, desc *PropertyDe
 		}
 
 		if desc.IsData() != !current.accessor {
-			return desc.Configurable != FLAG_FALSE
+			return false
 		}
 
 		if desc.IsData() && !current.accessor {
